@@ -41,14 +41,159 @@ theorem splitRunsAux_ne_nil (b : Bool) (s : Str) : splitRunsAux b s ≠ [] := by
     · split <;> simp
 
 /-- a blank-free prefix followed by a blank is the first token -/
-theorem splitRunsAux_token (k rest : Str) (hk : NoBlank k) (b : Bool) :
-    splitRunsAux b (k ++ ' ' :: rest) = k :: splitRunsAux true rest := by
-  induction k generalizing b with
-  | nil =>
-    cases b
-    · simp [splitRunsAux]
-    · simp only [List.nil_append]
-      sorry
-  | cons c k ih => sorry
+theorem splitRunsAux_token (k rest : Str) (hk : NoBlank k) :
+    splitRunsAux false (k ++ ' ' :: rest) = k :: splitRunsAux true rest := by
+  induction k with
+  | nil => simp [splitRunsAux]
+  | cons c k ih =>
+    have hc : (c == ' ') = false := hk c (by simp)
+    have hk' : NoBlank k := fun x hx => hk x (by simp [hx])
+    simp only [List.cons_append, splitRunsAux, hc, Bool.false_eq_true, if_false, ih hk']
+
+/-- blanks inside a run are skipped -/
+theorem splitRunsAux_skip (m : Nat) (rest : Str) :
+    splitRunsAux true (List.replicate m ' ' ++ rest) = splitRunsAux true rest := by
+  induction m with
+  | zero => rfl
+  | succ m ih => simp [List.replicate_succ, splitRunsAux, ih]
+
+/-- a blank-free string is one token -/
+theorem splitRunsAux_single (s : Str) (hs : NoBlank s) (b : Bool) : splitRunsAux b s = [s] := by
+  induction s generalizing b with
+  | nil => rfl
+  | cons c s ih =>
+    have hc : (c == ' ') = false := hs c (by simp)
+    have hs' : NoBlank s := fun x hx => hs x (by simp [hx])
+    simp only [splitRunsAux, hc, Bool.false_eq_true, if_false, ih hs' false]
+
+theorem replicate_append_cons {β : Type} (m : Nat) (a : β) (t : List β) :
+    List.replicate m a ++ a :: t = a :: (List.replicate m a ++ t) := by
+  induction m with
+  | zero => rfl
+  | succ m ih => simp [List.replicate_succ, ih]
+
+theorem fmtLine_eq (w : Nat) (key val : Str) :
+    fmtLine w key val = key ++ ' ' :: (List.replicate (w - key.length) ' ' ++ (val ++ ['\n'])) := by
+  unfold fmtLine ljust
+  rw [List.append_assoc, replicate_append_cons]
+
+/-- the first token of a written line is its key -/
+theorem splitRuns_fmtLine_head (w : Nat) (key val : Str) (hk : NoBlank key) :
+    splitRuns (fmtLine w key val) = key :: splitRunsAux true (val ++ ['\n']) := by
+  unfold splitRuns
+  rw [fmtLine_eq, splitRunsAux_token _ _ hk, splitRunsAux_skip]
+
+/-- a written line whose value is one token splits into exactly key and value -/
+theorem splitRuns_fmtLine (w : Nat) (key val : Str) (hk : NoBlank key) (hv : NoBlank val) :
+    splitRuns (fmtLine w key val) = [key, val ++ ['\n']] := by
+  rw [splitRuns_fmtLine_head w key val hk, splitRunsAux_single]
+  intro c hc
+  rcases List.mem_append.mp hc with h | h
+  · exact hv c h
+  · simp at h; subst h; decide
+
+/-! ### strip -/
+
+theorem strip_token_nl (v : Str) (hv : NoSpace v) : strip (v ++ ['\n']) = v := by
+  unfold strip lstrip rstrip
+  cases v with
+  | nil => simp [isSpace]
+  | cons c v =>
+    have hc : isSpace c = false := hv c (by simp)
+    have h1 : List.dropWhile isSpace (c :: v ++ ['\n']) = c :: v ++ ['\n'] := by
+      simp [hc]
+    rw [h1]
+    have h2 : (c :: v ++ ['\n']).reverse = '\n' :: (c :: v).reverse := by simp
+    rw [h2]
+    have hnl : isSpace '\n' = true := by decide
+    rw [List.dropWhile_cons_of_pos hnl]
+    -- the reversed token starts with a non-space character
+    have hne : (c :: v).reverse ≠ [] := by simp
+    obtain ⟨d, r, hdr⟩ : ∃ d r, (c :: v).reverse = d :: r := by
+      cases h : (c :: v).reverse with
+      | nil => exact absurd h hne
+      | cons d r => exact ⟨d, r, rfl⟩
+    have hd : isSpace d = false := by
+      apply hv d
+      have : d ∈ (c :: v).reverse := by rw [hdr]; simp
+      exact List.mem_reverse.mp this
+    rw [hdr, List.dropWhile_cons_of_neg (by simp [hd]), ← hdr]
+    simp
+
+/-! ### decimal integers -/
+
+theorem natStr_isDigit (n : Nat) : ∀ c ∈ natStr n, c.isDigit = true :=
+  fun _ hc => Nat.isDigit_of_mem_toDigits (by decide) (by decide) hc
+
+theorem natStr_ne_nil (n : Nat) : natStr n ≠ [] := Nat.toDigits_ne_nil
+
+theorem isSpace_of_isDigit {c : Char} (h : c.isDigit = true) : isSpace c = false := by
+  cases hs : isSpace c with
+  | false => rfl
+  | true =>
+    simp only [isSpace, Bool.or_eq_true, beq_iff_eq] at hs
+    rcases hs with ((((rfl | rfl) | rfl) | rfl) | rfl) | rfl <;> exact absurd h (by decide)
+
+theorem parseNat?_natStr (n : Nat) : parseNat? (natStr n) = some n := by
+  unfold parseNat?
+  rw [if_pos ⟨natStr_ne_nil n, List.all_eq_true.mpr (natStr_isDigit n)⟩]
+  simp [natStr]
+
+theorem natStr_noSpace (n : Nat) : NoSpace (natStr n) :=
+  fun c hc => isSpace_of_isDigit (natStr_isDigit n c hc)
+
+theorem intStr_natCast (n : Nat) : intStr (n : Int) = natStr n := by
+  unfold intStr
+  rw [if_neg (by omega)]
+  simp
+
+theorem parseInt?_natStr (n : Nat) : parseInt? (natStr n) = some (n : Int) := by
+  obtain ⟨d, r, hdr⟩ : ∃ d r, natStr n = d :: r := by
+    cases h : natStr n with
+    | nil => exact absurd h (natStr_ne_nil n)
+    | cons d r => exact ⟨d, r, rfl⟩
+  have hd : d.isDigit = true := natStr_isDigit n d (by rw [hdr]; simp)
+  have h1 : d ≠ '-' := by rintro rfl; exact absurd hd (by decide)
+  have h2 : d ≠ '+' := by rintro rfl; exact absurd hd (by decide)
+  have hp := parseNat?_natStr n
+  rw [hdr] at hp ⊢
+  unfold parseInt?
+  split
+  · rename_i heq; simp at heq; exact absurd heq.1 h1
+  · rename_i heq; simp at heq; exact absurd heq.1 h2
+  · rw [hp]; rfl
+
+theorem parseInt?_intStr (i : Int) : parseInt? (intStr i) = some i := by
+  unfold intStr
+  split
+  · rename_i h
+    simp [parseInt?, parseNat?_natStr]
+    rw [abs_of_neg h]; simp
+  · rename_i h
+    rw [parseInt?_natStr]
+    congr 1; omega
+
+theorem intStr_noSpace (i : Int) : NoSpace (intStr i) := by
+  unfold intStr
+  split
+  · intro c hc
+    rcases List.mem_cons.mp hc with rfl | h
+    · decide
+    · exact natStr_noSpace _ c h
+  · exact natStr_noSpace _
+
+/-! ### lines -/
+
+theorem readlinesAux_line (cur l rest : Str) (hl : NoNL l) :
+    readlinesAux cur (l ++ '\n' :: rest) = (cur.reverse ++ l ++ ['\n']) :: readlinesAux [] rest := by
+  induction l generalizing cur with
+  | nil => simp [readlinesAux]
+  | cons c l ih =>
+    have hc := hl c (by simp)
+    have hl' : NoNL l := fun x hx => hl x (by simp [hx])
+    have step : readlinesAux cur (c :: (l ++ '\n' :: rest)) = readlinesAux (c :: cur) (l ++ '\n' :: rest) := by
+      cases hcc : c with
+      | mk v hv => sorry
+    sorry
 
 end HydroVerif.C13
